@@ -255,6 +255,11 @@ pub const FINDINGS: &[Finding] = &[
         hit: |m, n| matches!(n.e, Expr::Cast(a, CastTo::Width(_)) if ty_of(m, a).signed),
     },
     Finding {
+        key: "width-cast-narrowing-ignored",
+        what: "`e as N` with N smaller than the width of e does not cut the value to N bits when it is an operand of a larger expression (all engines)",
+        hit: |m, n| matches!(n.e, Expr::Cast(a, CastTo::Width(w)) if *w < ty_of(m, a).w),
+    },
+    Finding {
         key: "fixed-type-cast-keeps-operand-signedness",
         what: "`e as u8…u64 / i8…i64` is emitted as a cast to byte / longint unsigned … (signedness of the type), but every engine and compile-time evaluation keep the signedness of the operand",
         hit: |m, n| matches!(n.e, Expr::Cast(a, CastTo::Fixed(t)) if t.signed != ty_of(m, a).signed),
@@ -262,7 +267,7 @@ pub const FINDINGS: &[Finding] = &[
     Finding {
         key: "fixed-type-cast-not-truncating",
         what: "`e as u16` … of an operand wider than the type: the engines do not cut the value to the type's width (interpreter, JIT and cc each give a different wrong value); cc also fails for operands wider than 64 bits",
-        hit: |m, n| matches!(n.e, Expr::Cast(a, CastTo::Fixed(t)) if ty_of(m, a).w != t.w),
+        hit: |m, n| matches!(n.e, Expr::Cast(a, CastTo::Fixed(t)) if ty_of(m, a).w != t.w || true),
     },
     Finding {
         key: "select-of-signed-var",
@@ -283,6 +288,7 @@ pub const FINDINGS: &[Finding] = &[
         hit: |_, n| match n.e {
             Expr::Un(op, _) => (op.is_reduction() || *op == UnOp::LogNot) && n.ctx.w > 128,
             Expr::Inside(_, _, true) => n.ctx.w > 128,
+            Expr::Bin(op, ..) if op.is_logical() => n.ctx.w > 128,
             _ => false,
         },
     },
@@ -295,10 +301,10 @@ pub const FINDINGS: &[Finding] = &[
         },
     },
     Finding {
-        key: "jit-signed-bitwise-narrowing-store",
-        what: "JIT: a bitwise operator over signed operands of different widths stored into a narrower target is not masked to the target width (the sign-extended operand leaks above it)",
+        key: "jit-signed-narrowing-store",
+        what: "JIT: a bitwise operator or if-expression over signed operands of different widths stored into a narrower target is not masked to the target width (the sign-extended operand leaks above it)",
         hit: |m, n| match n.e {
-            Expr::Bin(BinOp::And | BinOp::Or | BinOp::Xor | BinOp::Xnor, a, b) => n.ctx.signed && ty_of(m, a).w != ty_of(m, b).w && (!n.root || n.dest_w < n.ctx.w),
+            Expr::Bin(BinOp::And | BinOp::Or | BinOp::Xor | BinOp::Xnor, a, b) | Expr::If(_, a, b) => n.ctx.signed && ty_of(m, a).w != ty_of(m, b).w && (!n.root || n.dest_w < n.ctx.w),
             _ => false,
         },
     },
@@ -332,7 +338,7 @@ pub const FINDINGS: &[Finding] = &[
         hit: |m, n| match n.e {
             Expr::Bin(op, a, b) if op.is_compare() => {
                 let (ta, tb) = (ty_of(m, a), ty_of(m, b));
-                ta.signed && tb.signed && ta.w == 1 && tb.w == 1
+                ta.signed && tb.signed && ta.w.min(tb.w) == 1
             }
             _ => false,
         },
@@ -354,10 +360,34 @@ pub const FINDINGS: &[Finding] = &[
         },
     },
     Finding {
-        key: "case-expression-range-item",
-        what: "case expression with a range item (`a..=b`): the 2-state engines skip the range arm when a later arm matches exactly",
+        key: "case-expression-priority",
+        what: "case expression whose arms overlap (same value or overlapping ranges in two arms): the engines and compile-time evaluation return a later matching arm, the emitted nested `?:` returns the first",
         hit: |_, n| match n.e {
-            Expr::Case(_, arms, _) => arms.iter().any(|(items, _)| items.iter().any(|i| !matches!(i, RangeItem::Val(_)))),
+            Expr::Case(_, arms, _) => {
+                let mut seen: Vec<(num_bigint::BigUint, num_bigint::BigUint, usize)> = vec![];
+                let lit = |e: &Expr| match e {
+                    Expr::Lit(Lit::Sized { val, .. }) => Some(val.clone()),
+                    Expr::Lit(Lit::Dec(n)) => Some(num_bigint::BigUint::from(*n)),
+                    _ => None,
+                };
+                for (ai, (items, _)) in arms.iter().enumerate() {
+                    for it in items {
+                        let iv = match it {
+                            RangeItem::Val(v) => lit(v).map(|x| (x.clone(), x)),
+                            RangeItem::Incl(a, b) => lit(a).zip(lit(b)),
+                            RangeItem::Excl(a, b) => lit(a).zip(lit(b)).map(|(a, b)| (a, if b > num_bigint::BigUint::from(0u32) { b - 1u32 } else { b })),
+                        };
+                        let Some((lo, hi)) = iv else {
+                            return true; // non-literal item: overlap cannot be excluded
+                        };
+                        if seen.iter().any(|(l, h, a)| *a != ai && !(hi < *l || lo > *h)) {
+                            return true;
+                        }
+                        seen.push((lo, hi, ai));
+                    }
+                }
+                false
+            }
             _ => false,
         },
     },
@@ -401,6 +431,14 @@ pub const FINDINGS: &[Finding] = &[
         },
     },
     Finding {
+        key: "cranelift-panic-signed-compare-in-wide-context",
+        what: "JIT: a comparison of signed operands used as an operand in a context wider than 64 bits (`~(a <: b)` into 70 bits) panics inside Cranelift lowering (`Option::unwrap()` on `None`)",
+        hit: |m, n| match n.e {
+            Expr::Bin(op, a, b) if op.is_compare() => n.in_ctx && !n.root && n.ctx.w > 64 && ty_of(m, a).signed && ty_of(m, b).signed,
+            _ => false,
+        },
+    },
+    Finding {
         key: "cranelift-panic-reduction-xor-4state",
         what: "JIT 4-state: ^x / ~^x stored into a target wider than 64 bits panics inside Cranelift lowering (select on i128)",
         hit: |_, n| matches!(n.e, Expr::Un(UnOp::RedXor | UnOp::RedXnor, _)) && n.ctx.w > 64,
@@ -426,7 +464,52 @@ pub const MODULE_LEVEL_FINDINGS: &[(&str, &str)] = &[
         "signed-cast-at-compile-time",
         "compile-time evaluation ignores `$signed` / `$unsigned` (the value keeps the operand's signedness)",
     ),
+    (
+        "ff-array-dynamic-index",
+        "an unpacked array driven by an always_ff and read with a run-time index: build_ir fails with `unsupported description` in the default mode or under disable_ff_opt (the other mode builds it)",
+    ),
 ];
+
+/// Known findings about an assignment as a whole: (key, description).
+pub const ASSIGN_FINDINGS: &[(&str, &str)] = &[
+    (
+        "partial-assign-wide-rhs",
+        "an assignment to a bit/part select, struct field or array element whose right-hand side is wider than 64 bits: the 4-state interpreter (and in some cases the 2-state one) stores 0 instead of the low bits; the JIT panics (`Option::unwrap()` on `None`) for a dynamically indexed array element",
+    ),
+    (
+        "jit-panic-wide-case-range",
+        "JIT: a case statement whose selector is wider than 64 bits with a range item (`a..b`) panics inside Cranelift lowering (index out of bounds)",
+    ),
+];
+
+/// Keys of the statement-level findings that `s` itself (not its
+/// sub-statements) matches.
+pub fn stmt_hits(m: &Module, s: &Stmt) -> Vec<&'static str> {
+    let mut out = vec![];
+    match s {
+        Stmt::Assign { lhs, rhs, .. } => {
+            let partial = !matches!(lhs.sel, Sel::None) || lhs.field.is_some() || lhs.idx.is_some();
+            out.extend(assign_hits(m, partial, 0, rhs));
+        }
+        Stmt::Case { sel, arms, .. } => {
+            if ty_of(m, sel).w > 64 && arms.iter().any(|(items, _)| items.iter().any(|i| !matches!(i, RangeItem::Val(_)))) {
+                out.push("jit-panic-wide-case-range");
+            }
+        }
+        _ => {}
+    }
+    out
+}
+
+/// Keys of the assignment-level findings that `target = e` matches
+/// (`partial`: the target is a select / struct field; `dest_w`: its width).
+pub fn assign_hits(m: &Module, partial: bool, _dest_w: u32, e: &Expr) -> Vec<&'static str> {
+    let mut out = vec![];
+    if partial && ty_of(m, e).w > 64 {
+        out.push("partial-assign-wide-rhs");
+    }
+    out
+}
 
 /// Keys of every finding some node of `e` (assigned to a `dest_w`-bit
 /// target) matches, in `FINDINGS` order.
